@@ -222,6 +222,108 @@ theorem doc_words_verbatim (pre body rest : List Char) (ps : List Piece)
   rw [String.toList_ofList]
   exact parseJavadoc_words body
 
+/-! ### one-line bodies are taken verbatim -/
+
+/-- every word of the language of `r` contains a character with `P`, when … -/
+def needs (P : Char → Prop) : Re → Prop
+  | .eps => False
+  | .cls rs => ∀ c, inCls rs c = true → P c
+  | .seq a b => needs P a ∨ needs P b
+  | .alt a b => needs P a ∧ needs P b
+  | .star _ => False
+
+theorem Matches.has_char (P : Char → Prop) {r : Re} {w : List Char} (h : Matches r w) : needs P r → ∃ c ∈ w, P c := by
+  induction h with
+  | eps => intro hn; exact hn.elim
+  | cls rs c hin => intro hn; exact ⟨c, by simp, hn c hin⟩
+  | seq a b u v _ _ iha ihb =>
+    intro hn
+    rcases hn with hn | hn
+    · obtain ⟨c, hc, hp⟩ := iha hn; exact ⟨c, List.mem_append_left _ hc, hp⟩
+    · obtain ⟨c, hc, hp⟩ := ihb hn; exact ⟨c, List.mem_append_right _ hc, hp⟩
+  | altL a b u _ ih => intro hn; exact ih hn.1
+  | altR a b u _ ih => intro hn; exact ih hn.2
+  | starNil a => intro hn; exact hn.elim
+  | starCons a u v _ _ _ _ => intro hn; exact hn.elim
+
+/-- no match in a text that lacks the character every word of the expression needs -/
+theorem findFrom_none_of_lacks (P : Char → Prop) (r : Re) (hr : needs P r) (fuel : Nat) (s : List Char)
+    (hs : ∀ c ∈ s, ¬ P c) : findFrom r fuel s 0 = none := by
+  cases h : findFrom r fuel s 0 with
+  | none => rfl
+  | some ab =>
+    obtain ⟨a, b⟩ := ab
+    obtain ⟨pre, w, post, hsw, hw, _, _⟩ := findFrom_sound r fuel s 0 a b h
+    obtain ⟨c, hc, hp⟩ := Matches.has_char P hw hr
+    exact absurd hp (hs c (by rw [hsw]; simp [hc]))
+
+theorem eq_of_inCls_single (n : Nat) (c : Char) (h : inCls [(n, n)] c = true) : c = Char.ofNat n := by
+  simp only [inCls, List.any_cons, List.any_nil, Bool.or_false, Bool.and_eq_true, decide_eq_true_eq] at h
+  exact char_of_toNat c n (by omega)
+
+theorem reParagraph_needs_nl : needs (· = '\n') reParagraph := by
+  simp only [reParagraph, Re.seqs, Re.opt, Re.chr, needs]
+  right; left
+  intro c hc
+  exact eq_of_inCls_single _ c hc
+
+theorem reLineNoise_needs_nl : needs (· = '\n') reLineNoise := by
+  simp only [reLineNoise, Re.seqs, Re.chr, needs]
+  right; left
+  intro c hc
+  exact eq_of_inCls_single _ c hc
+
+theorem reBeforeAt_needs_at : needs (· = '@') reBeforeAt := by
+  simp only [reBeforeAt, Re.seqs, Re.chr, needs]
+  right; right
+  intro c hc
+  exact eq_of_inCls_single _ c hc
+
+theorem splitRe_none (r : Re) (fuel : Nat) (s : List Char) (h : findFrom r (utf8Len s) s 0 = none) : splitRe r fuel s = [s] := by
+  cases fuel with
+  | zero => rfl
+  | succ n => rw [splitRe, h]
+
+theorem replaceAll_none (r : Re) (rep : List Char → List Char) (fuel : Nat) (s : List Char)
+    (h : findFrom r (utf8Len s) s 0 = none) : replaceAll r rep fuel s = s := by
+  cases fuel with
+  | zero => rfl
+  | succ n => rw [replaceAll, h]
+
+theorem mem_trimMatches {c : Char} {s : List Char} (h : c ∈ trimMatches s) : c ∈ s := by
+  unfold trimMatches at h
+  have h1 := List.mem_reverse.mp h
+  have h2 := (List.dropWhile_sublist _).subset h1
+  have h3 := List.mem_reverse.mp h2
+  exact (List.dropWhile_sublist _).subset h3
+
+/-- **A one-line body without `@` is taken verbatim**: `/** text */` documents its construct with
+    `text`, trimmed of surrounding blanks and stars — inner spacing, punctuation and any Unicode
+    content untouched. -/
+theorem parseJavadoc_one_line (s : List Char) (hnl : '\n' ∉ s) (hat : '@' ∉ s) : parseJavadoc s = trimMatches s := by
+  have hs1 : ∀ c ∈ s, ¬ (c = '\n') := fun c hc he => hnl (he ▸ hc)
+  have ht1 : ∀ c ∈ trimMatches s, ¬ (c = '\n') := fun c hc => hs1 c (mem_trimMatches hc)
+  have ht2 : ∀ c ∈ trimMatches s, ¬ (c = '@') := fun c hc he => hat (he ▸ mem_trimMatches hc)
+  unfold parseJavadoc
+  simp only
+  rw [splitRe_none _ _ _ (findFrom_none_of_lacks _ _ reParagraph_needs_nl _ s hs1)]
+  simp only [List.map_cons, List.map_nil, intercalate]
+  rw [replaceAll_none reLineNoise _ _ _ (findFrom_none_of_lacks _ _ reLineNoise_needs_nl _ _ ht1)]
+  rw [replaceAll_none reBeforeAt _ _ _ (findFrom_none_of_lacks _ _ reBeforeAt_needs_at _ _ ht2)]
+
+/-- … so a construct directly preceded by a one-line doc comment is documented with that line, verbatim -/
+theorem doc_one_line_verbatim (pre body rest : List Char) (ps : List Piece)
+    (hbody : ∀ x ∈ body, x ≠ '/') (hhead : body.head? ≠ some '*') (hps : ∀ p ∈ ps, p.ok)
+    (hnl : '\n' ∉ body) (hat : '@' ∉ body) :
+    getJavadoc (pre ++ ['/', '*', '*'] ++ body ++ ['*', '/'] ++ flat ps ++ rest)
+        (utf8Len (pre ++ ['/', '*', '*'] ++ body ++ ['*', '/'] ++ flat ps))
+      = .ok (some (String.ofList (trimMatches body))) := by
+  rw [getJavadoc_doc pre body rest ps hbody hhead hps, parseJavadoc_one_line body hnl hat]
+
+example : parseJavadoc " Größe  der 🎉, x=1 ".toList = "Größe  der 🎉, x=1".toList := by
+  rw [parseJavadoc_one_line " Größe  der 🎉, x=1 ".toList (by decide) (by decide)]
+  decide +kernel
+
 /-- non-vacuity / sanity (kernel evaluation): words of a CRLF, non-ASCII body -/
 example : words "\r\n * Größe 日本\r\n * @param x é\r\n ".toList = "Größe日本@paramxé".toList := by decide +kernel
 
